@@ -89,7 +89,7 @@ func c01Mon() *PlayMon {
 					return
 				}
 				for i, ps := range cc.Opts.Players {
-					pi := open.FindPlayerIdx(roster[i])
+					pi := h.PlayerIdx(open, roster[i])
 					if pi < 0 {
 						continue
 					}
